@@ -11,6 +11,8 @@ import (
 	"path/filepath"
 	"time"
 
+	"github.com/google/pprof/internal/driver"
+	"github.com/google/pprof/internal/plugin"
 	"github.com/google/pprof/internal/report"
 	"github.com/google/pprof/profile"
 )
@@ -53,6 +55,43 @@ func c02OpsAfterParse(p *profile.Profile) (res string) {
 			// an error is allowed, a crash is not
 			continue
 		}
+		// the same report as a mean (-mean / -mean_delay): values divided by the first column, which
+		// may be 0 in any sample
+		q = p.Copy()
+		opt = &report.Options{OutputFormat: f, SampleValue: func(v []int64) int64 {
+			if len(v) == 0 {
+				return 0
+			}
+			return v[len(v)-1]
+		}, SampleMeanDivisor: func(v []int64) int64 {
+			if len(v) == 0 {
+				return 0
+			}
+			return v[0]
+		}, SampleUnit: "count", NodeCount: 10, NodeFraction: 0.005, EdgeFraction: 0.001}
+		out.Reset()
+		_ = report.Generate(&out, report.New(q, opt), nil)
+	}
+	return "ok"
+}
+
+// c02DriverTop: "pprof <file> never panics": the bytes go through the real fetch of pprof's driver
+// (file source, no symbolization) and a text report is written.
+func c02DriverTop(data []byte, extra ...string) (res string) {
+	defer func() {
+		if r := recover(); r != nil {
+			res = "panic: " + fmt.Sprint(r)
+		}
+	}()
+	if err := os.WriteFile("c02in.prof", data, 0o644); err != nil {
+		return "harness-err"
+	}
+	defer os.Remove("c02in.prof")
+	defer os.Remove("c02out.txt")
+	args := append([]string{"-symbolize=none", "-output=c02out.txt"}, extra...)
+	o := &plugin.Options{Flagset: newC09Flags(append(args, "c02in.prof")), Sym: c09Sym{}, Obj: &c09Obj{}, UI: &c09UI{}}
+	if err := driver.PProf(o); err != nil {
+		return "ok" // an error is allowed, a crash is not
 	}
 	return "ok"
 }
@@ -109,7 +148,11 @@ func runC02(c *Ctx) {
 				obs = L(S("err"))
 				return
 			}
-			obs = L(S("ok"), DumpProfile(p), S(c02OpsAfterParse(p)))
+			ops := c02OpsAfterParse(p)
+			if ops == "ok" {
+				ops = c02DriverTop(data, [][]string{{"-top"}, {"-traces", "-mean"}, {"-tree"}, {"-top", "-mean"}}[total%4]...)
+			}
+			obs = L(S("ok"), DumpProfile(p), S(ops))
 		}()
 		if time.Since(t0) > 2*time.Second {
 			slow++
